@@ -264,9 +264,9 @@ func cmdCheck(propID, tier string) int {
 	if v := envInt("VERIF_RUNS", 0); v > 0 {
 		nRuns = v
 	}
-	wallCap := 4 * time.Minute
+	wallCap := 12 * time.Minute // safety caps only: on an idle 16-core machine quick takes 5-50 s, thorough 1-15 min
 	if tier == "thorough" {
-		wallCap = 40 * time.Minute
+		wallCap = 120 * time.Minute
 	}
 	if v := envInt("VERIF_WALL_S", 0); v > 0 {
 		wallCap = time.Duration(v) * time.Second
